@@ -52,6 +52,38 @@ xread(int fd, void *p, size_t n)
 	return 0;
 }
 
+#define RS_MAXFOLLOW	4
+struct rs_follow_s {
+	int kind;	/* 0 cancel, 1 add a small one-shot task */
+	unsigned user;
+	char uid[64];
+};
+
+static int
+rs_observe(struct rs_task_s *out)
+{
+	struct hx_task_s obs[HX_MAXTASKS];
+	int n = hx_observe(obs);
+	for (int i = 0; i < n; i++) {
+		memset(&out[i], 0, sizeof(out[i]));
+		snprintf(out[i].uid, sizeof(out[i].uid), "%s", obs[i].uid);
+		out[i].owner = obs[i].owner;
+		out[i].at = obs[i].at;
+		out[i].maxsimul = obs[i].maxsimul;
+		out[i].nocc = obs[i].nocc;
+	}
+	return n;
+}
+
+static size_t
+rs_mkreq(char *buf, size_t bsz, const struct rs_follow_s *f)
+{
+	if (f->kind == 0) {
+		return (size_t)snprintf(buf, bsz, "BEGIN:VCALENDAR\nVERSION:2.0\nMETHOD:CANCEL\nBEGIN:VEVENT\nUID:%s\nEND:VEVENT\nEND:VCALENDAR\n", f->uid);
+	}
+	return (size_t)snprintf(buf, bsz, "BEGIN:VCALENDAR\nVERSION:2.0\nMETHOD:PUBLISH\nBEGIN:VEVENT\nUID:%s\nSUMMARY:job-%s\nDTSTART:20300101T000050Z\nEND:VEVENT\nEND:VCALENDAR\n", f->uid, f->uid);
+}
+
 static void
 rs_serve(void)
 {
@@ -80,9 +112,13 @@ rs_serve(void)
 			xread(rs_req[0], img[i].data, img[i].len);
 			img[i].live = 1;
 		}
+		/* second epoch: commands the restarted daemon is given, followed by a checkpoint (nfollow < 0: none) */
+		int nfollow;
+		struct rs_follow_s follow[RS_MAXFOLLOW];
+		if (xread(rs_req[0], &nfollow, sizeof(nfollow)) < 0) _exit(0);
+		if (nfollow > 0 && xread(rs_req[0], follow, sizeof(follow[0]) * (size_t)nfollow) < 0) _exit(0);
 		pid_t c = fork();
 		if (c == 0) {
-			struct hx_task_s obs[HX_MAXTASKS];
 			struct rs_task_s out[HX_MAXTASKS];
 			int n;
 			prctl(PR_SET_PDEATHSIG, SIGKILL);
@@ -91,24 +127,44 @@ rs_serve(void)
 			for (int i = 0; i < nf; i++) hx_files[i] = img[i];
 			hx_boot(1);
 			echsd_inject_queues(hx_ctx, HX_SPOOLPATH);
-			n = hx_observe(obs);
-			for (int i = 0; i < n; i++) {
-				memset(&out[i], 0, sizeof(out[i]));
-				snprintf(out[i].uid, sizeof(out[i].uid), "%s", obs[i].uid);
-				out[i].owner = obs[i].owner;
-				out[i].at = obs[i].at;
-				out[i].maxsimul = obs[i].maxsimul;
-				out[i].nocc = obs[i].nocc;
-			}
+			n = rs_observe(out);
 			xwrite(rs_rsp[1], &n, sizeof(n));
 			xwrite(rs_rsp[1], out, sizeof(out[0]) * (size_t)n);
+			if (nfollow >= 0) {
+				int nf2 = 0, nrep[2] = {0, 0};
+				for (int i = 0; i < nfollow; i++) {
+					struct hx_reply_s rp;
+					static char req[8192];
+					size_t o = rs_mkreq(req, sizeof(req), &follow[i]);
+					hx_request(&rp, follow[i].user, req, o);
+					nrep[0] += rp.nsucc, nrep[1] += rp.nfail;
+				}
+				cptim_cb(hx_ctx->loop, NULL, 0);
+				n = rs_observe(out);
+				xwrite(rs_rsp[1], nrep, sizeof(nrep));
+				xwrite(rs_rsp[1], &n, sizeof(n));
+				xwrite(rs_rsp[1], out, sizeof(out[0]) * (size_t)n);
+				for (int i = 0; i < HX_NFILES; i++) nf2 += hx_files[i].live;
+				xwrite(rs_rsp[1], &nf2, sizeof(nf2));
+				for (int i = 0; i < HX_NFILES; i++) {
+					if (!hx_files[i].live) continue;
+					xwrite(rs_rsp[1], hx_files[i].name, sizeof(hx_files[i].name));
+					xwrite(rs_rsp[1], &hx_files[i].len, sizeof(hx_files[i].len));
+					xwrite(rs_rsp[1], hx_files[i].data, hx_files[i].len);
+				}
+			}
 			_exit(0);
 		}
 		int st;
 		while (waitpid(c, &st, 0) < 0 && errno == EINTR);
 		if (!(WIFEXITED(st) && WEXITSTATUS(st) == 0)) {
-			/* the restarted daemon died loading the spool */
+			/* the restarted daemon died loading the spool (or later: the explorer reads a -1
+			 * wherever it expects the next count; replies are written whole or not at all
+			 * up to the pipe capacity, the explorer treats a short second part as death too) */
 			int n = -1;
+			xwrite(rs_rsp[1], &n, sizeof(n));
+		} else {
+			int n = -2;	/* end-of-reply marker */
 			xwrite(rs_rsp[1], &n, sizeof(n));
 		}
 		for (int i = 0; i < nf; i++) free(img[i].data);
@@ -116,10 +172,18 @@ rs_serve(void)
 }
 
 /* load the spool image FILES into a pristine daemon; returns #tasks or -1 if it died */
+struct rs_epoch2_s {
+	int nrep[2];			/* success / failure replies to the follow-up commands */
+	int n;				/* tasks in memory after follow-up + checkpoint */
+	struct rs_task_s t[HX_MAXTASKS];
+	struct hx_file_s files[HX_NFILES];	/* the spool after the checkpoint (data malloc'd) */
+};
+
+/* returns #tasks after the restart, -1 if the restarted daemon died loading, -3 if it died in the second epoch */
 static int
-rs_reload(const struct hx_file_s *files, struct rs_task_s *out)
+rs_reload2(const struct hx_file_s *files, struct rs_task_s *out, const struct rs_follow_s *follow, int nfollow, struct rs_epoch2_s *e2)
 {
-	int nf = 0, n;
+	int nf = 0, n, mark;
 	for (int i = 0; i < HX_NFILES; i++) nf += files[i].live;
 	xwrite(rs_req[1], &hx_now, sizeof(hx_now));
 	xwrite(rs_req[1], &nf, sizeof(nf));
@@ -129,11 +193,44 @@ rs_reload(const struct hx_file_s *files, struct rs_task_s *out)
 		xwrite(rs_req[1], &files[i].len, sizeof(files[i].len));
 		xwrite(rs_req[1], files[i].data, files[i].len);
 	}
+	xwrite(rs_req[1], &nfollow, sizeof(nfollow));
+	if (nfollow > 0) xwrite(rs_req[1], follow, sizeof(follow[0]) * (size_t)nfollow);
 	if (xread(rs_rsp[0], &n, sizeof(n)) < 0) _exit(9);
-	if (n > 0) {
-		if (xread(rs_rsp[0], out, sizeof(out[0]) * (size_t)n) < 0) _exit(9);
+	if (n < 0) {
+		return -1;
+	}
+	if (n > 0 && xread(rs_rsp[0], out, sizeof(out[0]) * (size_t)n) < 0) _exit(9);
+	if (nfollow >= 0) {
+		int nf2;
+		memset(e2, 0, sizeof(*e2));
+		if (xread(rs_rsp[0], e2->nrep, sizeof(int)) < 0) _exit(9);
+		if (e2->nrep[0] == -1) {
+			/* died before the second part was written */
+			return -3;
+		}
+		if (xread(rs_rsp[0], &e2->nrep[1], sizeof(int)) < 0) _exit(9);
+		if (xread(rs_rsp[0], &e2->n, sizeof(e2->n)) < 0) _exit(9);
+		if (e2->n > 0 && xread(rs_rsp[0], e2->t, sizeof(e2->t[0]) * (size_t)e2->n) < 0) _exit(9);
+		if (xread(rs_rsp[0], &nf2, sizeof(nf2)) < 0) _exit(9);
+		for (int i = 0; i < nf2 && i < HX_NFILES; i++) {
+			xread(rs_rsp[0], e2->files[i].name, sizeof(e2->files[i].name));
+			xread(rs_rsp[0], &e2->files[i].len, sizeof(e2->files[i].len));
+			e2->files[i].data = malloc(e2->files[i].len + 1);
+			xread(rs_rsp[0], e2->files[i].data, e2->files[i].len);
+			e2->files[i].live = 1;
+		}
+	}
+	if (xread(rs_rsp[0], &mark, sizeof(mark)) < 0) _exit(9);
+	if (mark != -2) {
+		return nfollow >= 0 ? -3 : -1;
 	}
 	return n;
+}
+
+static int
+rs_reload(const struct hx_file_s *files, struct rs_task_s *out)
+{
+	return rs_reload2(files, out, NULL, -1, NULL);
 }
 
 /* ---------------- model ---------------- */
@@ -176,7 +273,7 @@ static int pruned;
 struct vt_s {
 	uint64_t key[VT_SIZE];
 	uint8_t dl[VT_SIZE];
-	long states, transitions, traces, crashpoints, faults, reloads;
+	long states, transitions, traces, crashpoints, faults, reloads, epoch2;
 	long nscratch_steps;
 };
 static struct vt_s *VT;
@@ -305,6 +402,9 @@ reload_shows(const struct rs_task_s *rs, int n, unsigned u, const struct mt_s *s
 }
 
 /* judge one spool image.  renamed[u]: user u's new file is in place; must_be_new: every user must show the current queue */
+static int with_epoch2;	/* set around the judgements of crash points */
+static void judge_epoch2(const struct hx_file_s *files, const char *when, const char *evk, const struct rs_task_s *rs, int n);
+
 static void
 judge_image(const struct hx_file_s *files, const char *when, const int *renamed, int must_be_new, const char *evk)
 {
@@ -352,6 +452,107 @@ judge_image(const struct hx_file_s *files, const char *when, const int *renamed,
 			snprintf(shape, sizeof(shape), "%s/%s/neither-old-nor-new", evk, when);
 			report("reload-set", shape, "%s: user %u: %s (last completed checkpoint expected; vs current queue: %s)", when, users[u], why, why2);
 			return;
+		}
+	}
+	if (with_epoch2) {
+		judge_epoch2(files, when, evk, rs, n);
+	}
+}
+
+/* second epoch: the daemon restarted on this spool is given one more command and checkpoints again.
+ * Differential oracle: RS is what the restart scheduled; the command's effect on RS is what memory, the
+ * files and a further restart must show, and every live queue file must be one complete calendar. */
+static int epoch2 = 1;
+static uint64_t e2_seen[64];
+static int ne2_seen;
+
+static int
+e2_same_set(const struct rs_task_s *a, int na, const struct rs_task_s *b, int nb, char *why, size_t wz)
+{
+	for (int i = 0; i < na; i++) {
+		int f = 0;
+		for (int j = 0; j < nb; j++) f |= !strcmp(a[i].uid, b[j].uid) && a[i].owner == b[j].owner && a[i].at == b[j].at;
+		if (!f) {
+			snprintf(why, wz, "%s of user %u (armed +%.0f) is missing", a[i].uid, a[i].owner, a[i].at - HX_T0);
+			return 0;
+		}
+	}
+	for (int j = 0; j < nb; j++) {
+		int f = 0;
+		for (int i = 0; i < na; i++) f |= !strcmp(a[i].uid, b[j].uid) && a[i].owner == b[j].owner && a[i].at == b[j].at;
+		if (!f) {
+			snprintf(why, wz, "%s of user %u (armed +%.0f) is there but should not be", b[j].uid, b[j].owner, b[j].at - HX_T0);
+			return 0;
+		}
+	}
+	return 1;
+}
+
+static void
+judge_epoch2(const struct hx_file_s *files, const char *when, const char *evk, const struct rs_task_s *rs, int n)
+{
+	static struct rs_epoch2_s e2;
+	struct rs_task_s tmp[HX_MAXTASKS], want[HX_MAXTASKS], rs3[HX_MAXTASKS];
+	char shape[160], why[200];
+	uint64_t h = 14695981039346656037ULL;
+
+	if (!epoch2 || pruned) return;
+	/* the same image within one checkpoint-bearing event is judged once */
+	for (int i = 0; i < HX_NFILES; i++) {
+		if (!files[i].live) continue;
+		h = hx_hash(h, files[i].name, strlen(files[i].name) + 1);
+		h = hx_hash(h, files[i].data, files[i].len);
+	}
+	for (int i = 0; i < ne2_seen; i++) if (e2_seen[i] == h) return;
+	if (ne2_seen < 64) e2_seen[ne2_seen++] = h;
+
+	for (int j = 0; j < n && !pruned; j++) {
+		for (int kind = 0; kind < 2 && !pruned; kind++) {
+			struct rs_follow_s f;
+			int nw = 0, n1, n3;
+			memset(&f, 0, sizeof(f));
+			f.kind = kind, f.user = rs[j].owner;
+			snprintf(f.uid, sizeof(f.uid), "%s", rs[j].uid);
+			for (int q = 0; q < n; q++) {
+				if (q == j && kind == 0) continue;
+				want[nw] = rs[q];
+				if (q == j) want[nw].at = HX_T0 + 50;
+				nw++;
+			}
+			VT->reloads++;
+			VT->epoch2++;
+			n1 = rs_reload2(files, tmp, &f, 1, &e2);
+			snprintf(shape, sizeof(shape), "%s/%s/then-%s", evk, when, kind ? "replace-by-small" : "cancel");
+			if (n1 == -3) {
+				report("epoch2-died", shape, "%s: the daemon restarted on this spool dies when it is given %s(%u,%s) and checkpoints", when, kind ? "ADD" : "CANCEL", f.user, f.uid);
+				break;
+			} else if (n1 < 0) {
+				break;
+			}
+			if (e2.nrep[0] != 1 || e2.nrep[1] != 0) {
+				report("epoch2-reply", shape, "%s: restarted daemon answers %s(%u,%s) with %d success / %d failure replies", when, kind ? "ADD" : "CANCEL", f.user, f.uid, e2.nrep[0], e2.nrep[1]);
+			} else if (!e2_same_set(want, nw, e2.t, e2.n, why, sizeof(why))) {
+				report("epoch2-memory", shape, "%s: after restart and %s(%u,%s): %s", when, kind ? "ADD" : "CANCEL", f.user, f.uid, why);
+			}
+			for (int i = 0; i < HX_NFILES && !pruned; i++) {
+				if (!e2.files[i].live || strncmp(e2.files[i].name, "echsq_", 6)) continue;
+				if (!hx_complete_ical(e2.files[i].data, e2.files[i].len)) {
+					report("torn-live", shape, "%s: after restart, %s(%u,%s) and a completed checkpoint the live file %s (%zu bytes) is not one complete calendar",
+					       when, kind ? "ADD" : "CANCEL", f.user, f.uid, e2.files[i].name, e2.files[i].len);
+				}
+			}
+			if (!pruned) {
+				VT->reloads++;
+				n3 = rs_reload(e2.files, rs3);
+				if (n3 < 0) {
+					report("reload-died", shape, "%s: after restart, %s(%u,%s) and a completed checkpoint a further restart dies loading the spool", when, kind ? "ADD" : "CANCEL", f.user, f.uid);
+				} else if (!e2_same_set(want, nw, rs3, n3, why, sizeof(why))) {
+					report("reload-set", shape, "%s: after restart, %s(%u,%s) and a completed checkpoint a further restart: %s", when, kind ? "ADD" : "CANCEL", f.user, f.uid, why);
+				}
+			}
+			for (int i = 0; i < HX_NFILES; i++) {
+				if (e2.files[i].live) free(e2.files[i].data);
+			}
 		}
 	}
 }
@@ -468,6 +669,8 @@ checkpoint_event(const struct ev_s *e)
 		hx_steps_armed = 0;
 		VT->nscratch_steps = hx_step;
 		/* crash points: the spool right before each call */
+		ne2_seen = 0;
+		with_epoch2 = 1;
 		for (int i = 0; i < nsnaps && !pruned; i++) {
 			char when[80];
 			snprintf(when, sizeof(when), "crash-before-%s", snaps[i].what);
@@ -480,6 +683,7 @@ checkpoint_event(const struct ev_s *e)
 			VT->crashpoints++;
 			judge_image(hx_files, "completed", cur_renamed, e->kind == E_SHUTDOWN, evk(e));
 		}
+		with_epoch2 = 0;
 		if (!pruned && !in_memory_matches_model(why, sizeof(why))) {
 			report("memory-changed", evk(e), "after an undisturbed %s: %s", name, why);
 		}
@@ -834,6 +1038,7 @@ enumerate(void)
 	int n1;
 
 	maxdepth = (int)vd_opt_l("depth", 2);
+	epoch2 = (int)vd_opt_l("epoch2", 1);
 	if (VT == NULL) {
 		VT = mmap(NULL, sizeof(*VT), PROT_READ | PROT_WRITE, MAP_SHARED | MAP_ANONYMOUS, -1, 0);
 		/* pin: forks are much cheaper on one CPU */
@@ -877,6 +1082,7 @@ enumerate(void)
 				vd_count("transitions", VT->transitions);
 				vd_count("traces", VT->traces);
 				vd_count("reloads", VT->reloads);
+		vd_count("second_epoch_histories", VT->epoch2);
 				vd_nontrivial();
 				vd_sample("%d users (2000..) add one task each%s, final checkpoint, restart", n, cl ? ", user 2000 cancels" : "");
 			}
@@ -921,6 +1127,7 @@ enumerate(void)
 		vd_count("crashpoints", VT->crashpoints);
 		vd_count("faults", VT->faults);
 		vd_count("reloads", VT->reloads);
+		vd_count("second_epoch_histories", VT->epoch2);
 		if (VT->crashpoints + VT->faults >= 2) vd_nontrivial();
 		vd_sample("%s ... : %ld states, %ld checkpoint runs with %ld crash points and %ld injected faults, %ld restarts (depth %d)", name,
 			  VT->states, VT->traces, VT->crashpoints, VT->faults, VT->reloads, maxdepth);
